@@ -106,4 +106,103 @@ def hobserve (env : World) (st : HState) : List Ev → List (List Bool)
     let st' := hstep env.batchMax env.pool st e
     (Method.all.map (hselected env st')) :: hobserve env st' es
 
+/-! ## Commands: the callers of the marks and nominations
+
+In the running system `MarkForDeletion` / `UnmarkForDeletion` / `NominateNodeForPod` are written by two callers only:
+`scheduling.Results.Record` (nominates every existing node on which the recorded result places a real pod — virtual
+capacity-buffer pods do not count, and whether the same result creates new NodeClaims is irrelevant) and the
+orchestration queue (`Queue.StartCommand` marks the candidates and enters the command, `Queue.Reconcile` /
+`CompleteCommand` removes the command and unmarks ONLY when the command failed; a command that succeeded has deleted
+the NodeClaims through the API and the mark stays, because the cluster state may not have seen the deletion yet).
+What the queue writes to the API reaches the cluster state only with the next informer delivery (`sync`, or any
+delivery of the NodeClaim: pod event, run of the nodeclaim.disruption controller). -/
+
+inductive QFault | none | deleteError | replacementLost
+deriving Repr, DecidableEq
+
+inductive QEv
+  | base (e : Ev)
+  | record (real virt newPods : Nat)   -- Results.Record: `real` pending pods and `virt` virtual buffer pods land on
+                                       -- the node, the new NodeClaims of the result carry `newPods` pods altogether
+  | start (m : Method)                 -- Queue.StartCommand on the candidate of method `m` (if it is one)
+  | queue (f : QFault)                 -- Queue.Reconcile of the command
+  | sync                               -- the informer delivers the NodeClaim as the API holds it
+deriving Repr, DecidableEq
+
+structure QState where
+  h : HState
+  inQueue : Bool := false       -- Queue.ProviderIDToCommand has the provider id
+  apiDeleting : Bool := false   -- the API copy of the NodeClaim carries a deletionTimestamp the cluster state has not seen
+deriving Repr, DecidableEq
+
+def qenv (env : World) (st : QState) : World := { env with inQueue := st.inQueue }
+
+/-- `GetCandidates` with the real queue -/
+def qselected (env : World) (st : QState) (m : Method) : Bool := hselected (qenv env st) st.h m
+
+/-- the NodeClaim as the informer would deliver it now -/
+def apiClaim (st : QState) : Option Claim :=
+  match st.h.sn with
+  | some s => s.claim.map (fun c => if st.apiDeleting then { c with deleting := true } else c)
+  | none => none
+
+def syncEvs (st : QState) : List Ev :=
+  match apiClaim st with
+  | some c => [.claim (some c)]
+  | none => []
+
+def startAccepted (env : World) (st : QState) (m : Method) : Bool := !st.inQueue && qselected env st m
+
+/-- the writes to the cluster-state entry that a command-level event amounts to -/
+def lower (env : World) (st : QState) : QEv → List Ev
+  | .base .podEvent => (if st.apiDeleting then syncEvs st else []) ++ [.podEvent]
+  | .base (.reconcile f) => (if st.apiDeleting then syncEvs st else []) ++ [.reconcile f]
+  | .base e => [e]
+  | .record real _ _ => if 0 < real then [.nominate] else []
+  | .start m => if startAccepted env st m then [.mark] else []
+  | .queue f => if st.inQueue && f == .replacementLost then [.unmark] else []
+  | .sync => syncEvs st
+
+def qstep (env : World) (st : QState) (e : QEv) : QState :=
+  let h' := hrun env.batchMax env.pool st.h (lower env st e)
+  match e with
+  | .base (.claim _) => { st with h := h', apiDeleting := false }
+  | .base _ => { st with h := h' }
+  | .record _ _ _ => { st with h := h' }
+  | .start m => { st with h := h', inQueue := st.inQueue || startAccepted env st m }
+  | .queue f =>
+    if !st.inQueue then { st with h := h' }
+    else match f with
+      | .deleteError => { st with h := h' }
+      | .replacementLost => { st with h := h', inQueue := false }
+      | .none => { st with h := h', inQueue := false, apiDeleting := true }
+  | .sync => { st with h := h' }
+
+def qrun (env : World) (st : QState) : List QEv → QState
+  | [] => st
+  | e :: es => qrun env (qstep env st e) es
+
+/-- the whole history as writes to the cluster-state entry -/
+def lowerRun (env : World) (st : QState) : List QEv → List Ev
+  | [] => []
+  | e :: es => lower env st e ++ lowerRun env (qstep env st e) es
+
+/-- what the real code reports it did with the event -/
+def qdid (env : World) (st : QState) : QEv → String
+  | .record _ _ _ => if st.h.sn.isSome then "recorded" else "untracked"
+  | .start m => if startAccepted env st m then "started" else "skipped"
+  | .queue f =>
+    if !st.inQueue then "none"
+    else match f with
+      | .deleteError => "requeued"
+      | .replacementLost => "failed"
+      | .none => "succeeded"
+  | _ => ""
+
+def qobserve (env : World) (st : QState) : List QEv → List (String × List Bool)
+  | [] => []
+  | e :: es =>
+    let st' := qstep env st e
+    (qdid env st e, Method.all.map (qselected env st')) :: qobserve env st' es
+
 end Karp.Candidate
